@@ -208,47 +208,64 @@ func (r *Run) checkFullThenUpdate(P string) {
 	}
 	// splitOperations routing
 	sff := r.E.Facts(sp, core.Ctx{})
+	// per loop-iteration path (so that `a || b` conditions and switch/if-chain
+	// forms are the same thing): the type the path has established and the
+	// result list its appends feed.
 	route := map[string]int{}
-	for _, b := range sp.Blocks {
-		for _, ins := range b.Instrs {
-			c, ok := ins.(*ssa.Call)
-			if !ok || !isBuiltin(c, "append") {
-				continue
-			}
-			at := sff.At(c)
-			typ := ""
-			for _, fc := range at {
-				if fc.Kind == "cmp" && fc.Op == "==" && fc.B.Op == "const" && fc.A.Op == "field" && fc.A.Name == "Type" {
-					typ = strings.Trim(fc.B.Name, `"`)
-				}
-			}
-			// which result does this append feed?
-			idx := -1
-			for _, rb := range sp.Blocks {
-				if ret, ok := rb.Instrs[len(rb.Instrs)-1].(*ssa.Return); ok {
-					for i, rv := range ret.Results {
-						for _, l := range phiLeaves(rv) {
-							if l == ssa.Value(c) {
-								idx = i
-							}
+	feeds := func(c *ssa.Call) int {
+		idx := -1
+		for _, rb := range sp.Blocks {
+			if ret, ok := rb.Instrs[len(rb.Instrs)-1].(*ssa.Return); ok {
+				for i, rv := range ret.Results {
+					for _, l := range phiLeaves(rv) {
+						if l == ssa.Value(c) {
+							idx = i
 						}
 					}
 				}
 			}
-			if typ != "" {
-				route[typ] = idx
+		}
+		return idx
+	}
+	routeConflict := ""
+	for _, head := range allLoopHeads(sp) {
+		for _, ip := range loopIterationPaths(sff, head, 4000) {
+			typ := ""
+			for _, fc := range rawPathFacts(sff, ip.Blocks) {
+				if fc.Kind == "cmp" && fc.Op == "==" && fc.B.Op == "const" && fc.A.Op == "field" && fc.A.Name == "Type" {
+					typ = strings.Trim(fc.B.Name, `"`)
+				}
+			}
+			var idxs []int
+			for _, b := range ip.Blocks[:len(ip.Blocks)-1] {
+				for _, ins := range b.Instrs {
+					if c, ok := ins.(*ssa.Call); ok && isBuiltin(c, "append") {
+						idxs = append(idxs, feeds(c))
+					}
+				}
+			}
+			switch {
+			case typ == "" && len(idxs) > 0:
+				routeConflict = "an operation of no established type is appended"
+			case typ != "" && len(idxs) == 1:
+				if old, has := route[typ]; has && old != idxs[0] {
+					routeConflict = typ + " is routed to two lists"
+				}
+				route[typ] = idxs[0]
+			case typ != "" && len(idxs) > 1:
+				routeConflict = typ + " is appended more than once"
 			}
 		}
 	}
 	wantRoute := map[string]int{"create": 0, "update": 1, "recover": 2, "deactivate": 2}
-	okRoute := len(route) == 4
+	okRoute := len(route) == 4 && routeConflict == ""
 	for k, v := range wantRoute {
 		if route[k] != v {
 			okRoute = false
 		}
 	}
 	r.R.Check(okRoute, P+".split.route", "E7: splitOperations routes create→createOps, update→updateOps, recover/deactivate→fullOps", core.FuncName(sp), r.where(sp),
-		"a type routed to the wrong list is applied in the wrong phase or never", fmt.Sprint(route), fmt.Sprintf("routing %v, expected %v", route, wantRoute))
+		"a type routed to the wrong list is applied in the wrong phase or never", fmt.Sprint(route), fmt.Sprintf("routing %v %s, expected %v", route, routeConflict, wantRoute))
 
 	rff := r.E.Facts(res, core.Ctx{})
 	calls := r.callsIn(res, "OperationProcessor.applyOperations")
